@@ -354,7 +354,7 @@ def check_use_small_scope():
                                 want.append((ln - 1, 3, 'Module "nowhere" not found in project'))
                         u.line_number = ln
                         sc.use.append(u)
-                    if implicit is not None and kinds and 1 + len(kinds) >= implicit:
+                    if implicit is not None and kinds and 1 + len(kinds) > implicit:   # a USE on a later line than the IMPLICIT statement
                         want.append((implicit - 1, 1, "USE statements after IMPLICIT statement"))
                     got = [(d.sline, d.severity, d.message) for d in sc.check_use(tree)]
                     if got != want:
